@@ -94,15 +94,16 @@ class Receiver(object):
             self.transport.producerState)
 
 
-def explore_stream(kind, stream, max_cuts):
+def explore_stream(kind, stream, max_cuts, offsets=None):
   """Returns dict(states, transitions, executions, final observable or None, divergence or None)."""
   N = len(stream)
+  allowed = sorted(set(o for o in (offsets if offsets is not None else range(1, N + 1)) if 0 < o <= N) | {N})
   # explicit-state search: a state is (offset, canonical receiver state); it is re-materialised by
   # replaying the cut list that first reached it.  Normally every offset has exactly one state.
   states = {}          # (offset, canon) -> cuts that reach it
   by_offset = {}
   work = []
-  for p in range(1, N + 1):
+  for p in allowed:
     r = Receiver(kind)
     r.feed(stream[:p])
     k = (p, r.canon())
@@ -110,7 +111,7 @@ def explore_stream(kind, stream, max_cuts):
       states[k] = (p,)
       by_offset.setdefault(p, []).append(k)
       work.append(k)
-  transitions = N
+  transitions = len(allowed)
   r = Receiver(kind)
   r.feed(stream)
   final_obs = r.observable()
@@ -119,7 +120,9 @@ def explore_stream(kind, stream, max_cuts):
     if p == N:
       continue
     cuts = states[(p, canon_p)]
-    for q in range(p + 1, N + 1):
+    for q in allowed:
+      if q <= p:
+        continue
       r = Receiver(kind)
       prev = 0
       for c in cuts:
@@ -143,7 +146,7 @@ def explore_stream(kind, stream, max_cuts):
   # belt and braces: direct enumeration of all segmentations with <= max_cuts cuts, and byte by byte
   execs = 0
   for k in range(1, max_cuts + 1):
-    for cuts in itertools.combinations(range(1, N), k):
+    for cuts in itertools.combinations([o for o in allowed if o < N], k):
       r = Receiver(kind)
       prev = 0
       for c in cuts + (N,):
@@ -173,4 +176,28 @@ def run_cuts(kind, stream, cuts):
   for c in list(cuts) + [len(stream)]:
     r.feed(stream[prev:c])
     prev = c
+  return r
+
+
+def run_with_pause(kind, stream, k, cuts=()):
+  """Feed `stream` (cut at `cuts`) while flow control pauses the receivers during the delivery of the k-th
+  datapoint (events.pauseReceivingMetrics fired from inside the pipeline, as a full cache or send queue does)
+  and resumes them after the last byte: bytes that the process has already read must still be delivered."""
+  from carbon import events
+  r = Receiver(kind)
+  seen = [0]
+
+  def pauser(metric, datapoint):
+    seen[0] += 1
+    if seen[0] == k:
+      events.pauseReceivingMetrics()
+  events.metricReceived.addHandler(pauser)
+  try:
+    prev = 0
+    for c in list(cuts) + [len(stream)]:
+      r.feed(stream[prev:c])
+      prev = c
+    events.resumeReceivingMetrics()
+  finally:
+    events.metricReceived.removeHandler(pauser)
   return r
